@@ -410,9 +410,39 @@ def unfinished_roles(F, ev):
     return r
 
 
-def err_sites(F, variant):
-    out = []
+def analysis_units(F, no_inline):
+    """compatibility shim: no MIR-level merging for the guard tables (a helper returning Option/Result/bool would lose
+    the correlation between its return paths and the caller's test at the join) — private helpers are instead
+    analysed in every CALLING CONTEXT, see helper_contexts"""
+    return {}, {}
+
+
+def helper_contexts(F, ev):
+    """{private helper key: [env]}: the environments (arguments bound to the caller's terms, parent chain up to a function
+    with a stable name) in which each private helper runs, collected by effects.iteration_effects(enters=True)"""
+    from effects import iteration_effects
+    ctx = {}
     for b in F.bodies.values():
+        if b.kind == "Closure":
+            continue
+        if stable_name(b) or not (local_callers(F).get(b.key, set()) - {b.key}):
+            try:
+                for e in iteration_effects(ev, Env(b), enters=True):
+                    if e.kind == "enter" and e.env.depth > 0 and e.body.kind != "Closure" and not stable_name(F.bodies.get(e.body.key, e.body)):
+                        ctx.setdefault(e.body.key, []).append(e.env)
+            except RecursionError:
+                pass
+    return ctx
+
+
+def err_sites(F, variant, units=None, helper_units=None):
+    out = []
+    if units is None:
+        bodies = list(F.bodies.values())
+    else:
+        bodies = list(units.values()) + [b for b in F.bodies.values() if b.kind == "Closure"] + \
+            [b for b in F.bodies.values() if b.kind != "Closure" and b.key not in units and b.key not in (helper_units or {})]
+    for b in bodies:
         for bi, si, s in b.stmts():
             if s["k"] == "assign" and s["rv"]["k"] == "agg" and s["rv"].get("adt") == ADT_BUILDERR and s["rv"].get("variant") == variant:
                 if b.j.get("impl", {}).get("trait") in ("std::clone::Clone", "std::fmt::Debug", "std::fmt::Display", "std::cmp::PartialEq"):
@@ -444,6 +474,9 @@ def atom_call(f, suffix, positive=True):
     return None
 
 
+UNITS = None   # (units, helper_units) of the rule currently running (set by rule_build_guards)
+
+
 def closure_env_chain(F, ev, b):
     """[(body, env)] from the root function down to closure `b`, every closure's captures resolved
     in its creator; the iterated argument of a closure is the placeholder ('elem', ('closure-arg', key))"""
@@ -452,6 +485,13 @@ def closure_env_chain(F, ev, b):
     while x.kind == "Closure":
         chain.append(x)
         x = F.bodies[x.j["parent"]]
+    if UNITS is not None:
+        # the function that creates the closure is analysed with its private helpers merged in; a closure created in such
+        # a helper is created by the (copied) statement in the merged unit
+        if x.key in UNITS[0]:
+            x = UNITS[0][x.key]
+        elif x.key in UNITS[1]:
+            x = UNITS[0][UNITS[1][x.key][0]]
     env = Env(x)
     out = [(x, env)]
     for c in reversed(chain):
@@ -464,11 +504,27 @@ def closure_env_chain(F, ev, b):
     return out
 
 
+def quantify_loop_conditions(L, body, env, block, conds):
+    """a site inside a `for` loop (or reached only by leaving it early): the conditions that mention the loop's element
+    hold for SOME element — wrap them in ∃ over the loop's domain, so that the loop form of a search and the
+    `iter().find/any` form give the same formula"""
+    import logic
+    out = list(conds)
+    for it in L.search_loops_of(body, env, block):
+        dom = logic.nosite(logic.canon_domain(it))
+        hit = [f for f in out if logic.mentions(f, lambda x: x in (("item", dom), ("idx", dom)))]
+        if hit:
+            rest = [f for f in out if f not in hit]
+            out = rest + [("exists", dom, logic.f_and(hit))]
+    return out
+
+
 def site_conditions(F, ev, L, b, bi):
     """guard formulas at a construction site; a site inside a closure handed to
     `ok_or_else` / `unwrap_or_else` additionally has `the receiver is absent`"""
     if b.kind != "Closure":
-        return L.conditions_at(b, Env(b), bi), Env(b)
+        e0 = Env(b)
+        return quantify_loop_conditions(L, b, e0, bi, L.conditions_at(b, e0, bi)), e0
     chain = closure_env_chain(F, ev, b)
     conds = []
     for (parent, penv), (child, cenv) in zip(chain, chain[1:]):
@@ -491,6 +547,23 @@ def rule_build_guards(F, ev_unused, R, config, rule="R-BUILD-GUARDS"):
     L = logic.Logic(ev)
     import props
     UR = unfinished_roles(F, props.make_eval(F))
+    global UNITS
+    units, helper_units = analysis_units(F, ev.opaque)
+    UNITS = (units, helper_units)
+    HCTX = helper_contexts(F, ev)
+    CUR_ROOT = [None]
+
+    def root_of(b):
+        """the analysed function a site belongs to (for a private helper judged in a calling context: the function with a
+        stable name at the top of that call chain)"""
+        if CUR_ROOT[0] is not None:
+            return CUR_ROOT[0]
+        k = b.j.get("root", b.key) if b.kind == "Closure" else b.key
+        if k in units:
+            return units[k]
+        if k in helper_units:
+            return units[helper_units[k][0]]
+        return F.bodies.get(k, b)
 
     def in_fn(name):
         return lambda b: b.j.get("root", b.key).endswith(name)
@@ -499,16 +572,68 @@ def rule_build_guards(F, ev_unused, R, config, rule="R-BUILD-GUARDS"):
     ANY = lambda b: True
 
     def chk(variant, fn_pred, matcher, what, minimum=1):
-        sites = [x for x in err_sites(F, variant) if fn_pred(x[0])]
+        def owner(sb):
+            """the function a site is attributed to when deciding WHICH table row it belongs to: for a private helper the
+            function with a stable name at the top of its (first) calling context"""
+            if sb.kind != "Closure" and not stable_name(sb) and HCTX.get(sb.key):
+                x = HCTX[sb.key][0]
+                while getattr(x, "parent", None) is not None:
+                    x = x.parent
+                return F.bodies.get(x.body.key, x.body)
+            return sb
+        sites = [x for x in err_sites(F, variant, units, helper_units) if fn_pred(owner(x[0]))]
         if len(sites) < minimum:
             R.bad(rule, config, "-", "missing:" + variant, "error `%s` (%s) is never produced where expected: the defect is not detected" % (variant, what))
         for b, bi, si, s in sites:
-            conds, env = site_conditions(F, ev, L, b, bi)
             ok = False
-            try:
-                ok = bool(matcher(conds, b, env, s))
-            except Exception:
-                ok = False
+            ctxs = HCTX.get(b.key, []) if (b.kind != "Closure" and not stable_name(b)) else []
+            own_ok = False
+            if ctxs:
+                # first in the helper's own terms (a validator taking the value to validate as `self`)
+                conds, env = site_conditions(F, ev, L, b, bi)
+                try:
+                    own_ok = bool(matcher(conds, b, env, s))
+                except Exception:
+                    own_ok = False
+            if own_ok:
+                ok = True
+            elif ctxs:
+                # a private helper: the site is judged in every calling context (arguments in the caller's terms, plus
+                # the conditions under which each call on the chain happens); all contexts must agree
+                ok = True
+                conds = []
+                for cenv in ctxs[:8]:
+                    cs = []
+                    x, blk, bd = cenv, bi, cenv.body
+                    top = cenv
+                    while x is not None:
+                        if blk < len(bd.blocks) and blk in bd.live_blocks():
+                            cs.extend(quantify_loop_conditions(L, bd, x, blk, L.conditions_at(bd, x, blk)))
+                        par = getattr(x, "parent", None)
+                        if par is None or not x.path:
+                            top = x
+                            break
+                        blk = x.path[-1][1]
+                        x, bd = par, par.body
+                        top = x
+                    CUR_ROOT[0] = F.bodies.get(top.body.key, top.body)
+                    try:
+                        if not bool(matcher(cs, b, cenv, s)):
+                            ok = False
+                            conds = cs
+                    except Exception:
+                        ok = False
+                        conds = cs
+                    finally:
+                        CUR_ROOT[0] = None
+                    if ok:
+                        conds = cs
+            else:
+                conds, env = site_conditions(F, ev, L, b, bi)
+                try:
+                    ok = bool(matcher(conds, b, env, s))
+                except Exception:
+                    ok = False
             R.add(rule, config, b.key, "only-if:%s" % variant, ok,
                   "" if ok else "Err(%s) can be produced although the specification is not defective in that way (%s); conditions at the site: %s"
                   % (variant, what, "; ".join(logic.show_f(c)[:90] for c in conds)[:400]), s.get("span"))
@@ -520,7 +645,7 @@ def rule_build_guards(F, ev_unused, R, config, rule="R-BUILD-GUARDS"):
     # --- check_parameter_names -------------------------------------------------------
     def names_list(x, b):
         """the checked name list: the function's list argument, or a Vec<String> field of the value being validated"""
-        rb = F.bodies.get(b.j.get("root", b.key), b)
+        rb = root_of(b)
         return x == P1(b) or x == P1(rb) or (x[0] == "field" and x[1] == P1(rb) and "name" in x[2])
     chk("EmptyParameters", ANY,
         lambda c, b, e, s: conj_find(c, lambda f: (lambda t: t is not None and names_list(t[3][0], b))(atom_call(f, "::is_empty", True))),
@@ -537,7 +662,7 @@ def rule_build_guards(F, ev_unused, R, config, rule="R-BUILD-GUARDS"):
     def arity_ne(c, b, e, s):
         # the list whose length is compared with the arity is the FUNCTION's parameter list: the only list argument
         # of a dedicated helper, or — when the check sits in the wrapper constructor itself — its second argument
-        rb = F.bodies.get(b.j.get("root", b.key), b)
+        rb = root_of(b)
         sl = [("param", rb.key, i + 1) for i, ty in enumerate(rb.j.get("inputs", [])) if ty.startswith("&[")]
         lists = sl if len(sl) == 1 else []
         try:
@@ -549,10 +674,10 @@ def rule_build_guards(F, ev_unused, R, config, rule="R-BUILD-GUARDS"):
         return conj_find(c, lambda f: f[0] == "rel" and f[1] == "Ne" and
                          any(x[0] == "constitem" and x[1].endswith("ARGUMENT_COUNT") for x in (f[2], f[3])) and
                          any(x[0] == "call" and x[1].endswith("::len") and x[3][0] in lists for x in (f[2], f[3])))
-    chk("IncorrectParameterCount", lambda b: F.bodies.get(b.j.get("root", b.key), b).j.get("impl", {}).get("self_adt") != ADT_MBUILDER, arity_ne, "function parameter list length ≠ arity")
+    chk("IncorrectParameterCount", lambda b: root_of(b).j.get("impl", {}).get("self_adt") != ADT_MBUILDER, arity_ne, "function parameter list length ≠ arity")
     # --- create_index_mapping ------------------------------------------------------------
     def not_in_model(c, b, e, s):
-        root = F.bodies[b.j.get("root", b.key)]
+        root = root_of(b)
         full = ("param", root.key, 1)
         return conj_find(c, lambda f: f[0] == "forall" and f[1] == full and f[2][0] == "rel" and f[2][1] == "Ne" and ("item", full) in (f[2][2], f[2][3]))
     chk("FunctionParameterNotInModel", ANY, not_in_model, "a function parameter is not a model parameter")
@@ -564,15 +689,15 @@ def rule_build_guards(F, ev_unused, R, config, rule="R-BUILD-GUARDS"):
             if f[0] != "forall":
                 return False
             dom = f[1]
-            if not (dom[0] == "field" and dom[1] == P1(F.bodies[b.j.get("root", b.key)])):
+            if not (dom[0] == "field" and dom[1] == P1(root_of(b))):
                 return False
-            return logic.mentions(f[2], lambda x: x == P2(F.bodies[b.j.get("root", b.key)])) and logic.mentions(f[2], lambda x: x[0] in ("item",))
+            return logic.mentions(f[2], lambda x: x == P2(root_of(b))) and logic.mentions(f[2], lambda x: x[0] in ("item",))
         hit = conj_find(c, ok, under_exists=False)
         if hit:
             return hit
         # equivalent disjunctive form (e.g. a lookup helper that first tests membership in the function's list and
         # then searches the model list):  (the name is not in the function's parameters) ∨ (the name is not in the model's)
-        rb = F.bodies[b.j.get("root", b.key)]
+        rb = root_of(b)
         name = P2(rb)
 
         def not_in(f):
@@ -614,7 +739,7 @@ def rule_build_guards(F, ev_unused, R, config, rule="R-BUILD-GUARDS"):
         ok = ok and any("check_completion" in c or c.endswith("Try::branch") for c in calls)
         R.add(rule, config, b.key, "function-released-only-after-completeness-check", ok, "" if ok else "function builder build() = `%s`" % short(v)[:160], b.j["span"])
     # --- SeparableModelBuilder::initial_parameters ------------------------------------------
-    RB = lambda b: F.bodies.get(b.j.get("root", b.key), b)
+    RB = lambda b: root_of(b)
 
     def init_len(c, b, e, s):
         # the check may sit in the method or in a closure it hands to a helper: the guess is the ROOT function's argument
@@ -633,9 +758,15 @@ def rule_build_guards(F, ev_unused, R, config, rule="R-BUILD-GUARDS"):
         for _bi, _si, st in x.stmts():
             if st["k"] == "assign" and st["rv"]["k"] == "agg" and st["rv"].get("adt") == ADT_SEPMODEL:
                 validators.add(x.j.get("root", x.key))
-    ti = lambda b: b.j.get("root", b.key) in validators
-    FN = lambda b: ("field", P1(F.bodies[b.j.get("root", b.key)]), UR["u_functions"])
-    NM = lambda b: ("field", P1(F.bodies[b.j.get("root", b.key)]), UR["u_names"])
+    # a private validator is attributed to the functions with stable names that call it (see `owner` in chk)
+    for h in list(validators):
+        for x in HCTX.get(h, []):
+            while getattr(x, "parent", None) is not None:
+                x = x.parent
+            validators.add(x.body.key)
+    ti = lambda b: root_of(b).key in validators
+    FN = lambda b: ("field", P1(root_of(b)), UR["u_functions"])
+    NM = lambda b: ("field", P1(root_of(b)), UR["u_names"])
     chk("EmptyModel", ti, lambda c, b, e, s: conj_find(c, lambda f: (lambda t: t is not None and t[3][0] == FN(b))(atom_call(f, "::is_empty", True))), "no basis function")
 
     def unused_core(f, b, positive_use):
@@ -649,11 +780,11 @@ def rule_build_guards(F, ev_unused, R, config, rule="R-BUILD-GUARDS"):
     chk("UnusedParameter", ti, lambda c, b, e, s: conj_find(c, lambda f: unused_core(f, b, False)), "a model parameter is used by no function")
 
     for variant, field in (("MissingX", UR["u_x"]), ("MissingInitialParameters", UR["u_init"])):
-        sites = [x for x in err_sites(F, variant) if ti(x[0])]
+        sites = [x for x in err_sites(F, variant, units, helper_units) if ti(x[0])]
         if not sites:
             R.bad(rule, config, "-", "missing:" + variant, "missing %s is not reported" % field)
         for b, bi, si, s in sites:
-            fld = ("field", P1(F.bodies[b.j.get("root", b.key)]), field)
+            fld = ("field", P1(root_of(b)), field)
             okc, c = consumed_only_by(b, s["place"]["l"], "Option::ok_or")
             ok = False
             if okc:
